@@ -60,7 +60,9 @@ DIMENSIONS = {
     'pk_word': ['pk', 'primary key'],
     'legacy_constraints': [False, True],       # `id int pk unique` instead of settings
     'null_word': [False, True],                # write an explicit `null` for a nullable column
-    'note_pad': ['tight', 'padded', 'tabbed'],           # multi-line text: blank lines around, extra indentation
+    'note_pad': ['tight', 'padded', 'tabbed'],
+    'empty_note': ['omit', 'explicit'],          # an element without a note: nothing, or a note whose text is empty
+           # multi-line text: blank lines around, extra indentation
     'space': [' ', '  ', '\t'],
     'comment_style': ['line', 'block'],
     'comment_place': ['above', 'trailing', 'both'],                # separator between tokens on a line
@@ -278,6 +280,8 @@ class Printer:
             items.append(self.kw('null'))
         if c['note']:
             items.append(self.note_setting(c['note']))
+        elif self.f.pick('empty_note') == 'explicit' and items:
+            items.append(self.kw('note') + ':' + self.sp() + "''")
         for k, v in c['props']:
             items.append('\x00prop' + self.ident(k) + ':' + self.sp() + self.string(v))
         line = pad + self.sp().join(parts)
@@ -334,6 +338,8 @@ class Printer:
             pos = self.f.pick('note_pos')
             blk = self.body_note(t['note'], 1)
             self._place(body, blk, pos)
+        elif not t['note'] and self.f.pick('empty_note') == 'explicit':
+            self._place(body, [self.ind + self.kw('Note') + ':' + self.sp() + "''"], self.f.pick('note_pos'))
         if t['idxs']:
             ib = self.open_brace(self.ind + self.kw('indexes'), 1)
             for x in t['idxs']:
@@ -401,6 +407,8 @@ class Printer:
         body = [[self.ind + self.table_addr(i['schema'], i['table'])] for i in g['items']]
         if g['note'] and not note_in_settings:
             self._place(body, self.body_note(g['note'], 1), self.f.pick('note_pos'))
+        elif not g['note'] and self.f.pick('empty_note') == 'explicit':
+            self._place(body, [self.ind + self.kw('Note') + ':' + self.sp() + "''"], self.f.pick('note_pos'))
         for b in body:
             lines += b
         lines.append('}')
